@@ -75,6 +75,18 @@ pub struct BuilderCase {
     pub sched: Sched,
     /// number of non-member probes (filters)
     pub probes: usize,
+    /// string-key combinations only: deliver the keys through a real line lender of the crate over a
+    /// simulated byte source instead of the FaultyLender
+    #[serde(default)]
+    pub key_source: Option<KeySrc>,
+}
+
+#[derive(Clone, Debug, Serialize, Deserialize, PartialEq)]
+pub struct KeySrc {
+    /// "line" | "gzip" | "zstd"
+    pub kind: String,
+    pub bufcap: usize,
+    pub plan: crate::worlds::lenders::IoPlan,
 }
 
 pub const FUNC_COMBOS: &[&str] = &[
@@ -556,6 +568,107 @@ fn case_sig_ctx(case: &BuilderCase) -> String {
     hint.to_string()
 }
 
+/// String keys delivered by LineLender / GzipLineLender / ZstdLineLender over a SimSource.
+macro_rules! str_lender_combo {
+    ($fname:ident, func, $w:ty, $back:tt, $s:tt, $e:ty) => {
+        fn $fname(case: &BuilderCase, ks: &KeySrc, obs: &mut BuildObs) {
+            use crate::worlds::lenders::{IoStats, SimSource};
+            use std::io::Write;
+            let text: String = (0..case.n as u64).map(|i| str_key(case, i) + "\n").collect();
+            let vals: Arc<Vec<$w>> = Arc::new((0..case.n as u64).map(|i| value_of(case, i) as $w).collect());
+            let stats = Arc::new(IoStats::default());
+            let vl = FaultyLender::<$w, $w>::new(vals.clone(), "values", &case.faults);
+            let vs = vl.stats.clone();
+            let b = configure::<$w, back_ty!($back, $w), sig_ty!($s), $e>(case);
+            set_op("try_build_func(line lender keys)");
+            let res = match ks.kind.as_str() {
+                "gzip" => {
+                    let mut enc = flate2::write::GzEncoder::new(Vec::new(), flate2::Compression::fast());
+                    enc.write_all(text.as_bytes()).unwrap();
+                    let comp = enc.finish().unwrap();
+                    let mut plan = ks.plan.clone();
+                    plan.truncate_at = plan.truncate_at.map(|t| 1 + t % (comp.len() as u64 - 1).max(1));
+                    plan.fail_at_byte = plan.fail_at_byte.map(|t| t % (comp.len() as u64).max(1));
+                    match sux::utils::lenders::GzipLineLender::new(SimSource::new(Arc::new(comp), plan, stats.clone())) {
+                        Ok(kl) => b.try_build_func(kl, vl, no_logging![]),
+                        Err(e) => Err(e.into()),
+                    }
+                }
+                "zstd" => {
+                    let comp = zstd::encode_all(text.as_bytes(), 1).unwrap();
+                    let mut plan = ks.plan.clone();
+                    plan.truncate_at = plan.truncate_at.map(|t| 1 + t % (comp.len() as u64 - 1).max(1));
+                    plan.fail_at_byte = plan.fail_at_byte.map(|t| t % (comp.len() as u64).max(1));
+                    match sux::utils::lenders::ZstdLineLender::new(SimSource::new(Arc::new(comp), plan, stats.clone())) {
+                        Ok(kl) => b.try_build_func(kl, vl, no_logging![]),
+                        Err(e) => Err(e.into()),
+                    }
+                }
+                _ => {
+                    let mut plan = ks.plan.clone();
+                    plan.truncate_at = None;
+                    plan.fail_at_byte = plan.fail_at_byte.map(|t| t % (text.len() as u64).max(1));
+                    let kl = sux::utils::lenders::LineLender::new(std::io::BufReader::with_capacity(ks.bufcap.max(1), SimSource::new(Arc::new(text.into_bytes()), plan, stats.clone())));
+                    b.try_build_func(kl, vl, no_logging![])
+                }
+            };
+            set_op("verify_func(line lender keys)");
+            let g = |a: &std::sync::atomic::AtomicU64| a.load(std::sync::atomic::Ordering::Relaxed);
+            let io_fired = g(&stats.hard) + g(&stats.seek_failed) > 0;
+            obs.item_faults = g(&stats.hard) + LenderStats::get(&vs.item_faults);
+            obs.rewind_faults = g(&stats.seek_failed) + LenderStats::get(&vs.rewind_faults);
+            obs.rewinds = g(&stats.seeks);
+            obs.key_passes = 1 + g(&stats.seeks);
+            obs.items = LenderStats::get(&vs.items);
+            let fired = io_fired || LenderStats::get(&vs.item_faults) + LenderStats::get(&vs.rewind_faults) > 0;
+            let disk = verif_rt::simfs::stats();
+            let disk_hard = disk.enospc + disk.eio + disk.open_failed + disk.seek_failed > 0;
+            obs.disk = Some(disk);
+            let ctx = "builder:try_build_func(line lender keys)";
+            match res {
+                Ok(f) => {
+                    if fired {
+                        obs.outcome = "ok_after_fault".into();
+                        obs.violation = Some(Violation::new(
+                            "ok_after_fault",
+                            format!("{ctx}:{}:Ok:source_fault_fired", ks.kind),
+                            format!("build returned Ok (len {}) although the {} key source failed ({} hard read errors/truncations, {} failed seeks; plan {:?})", f.len(), ks.kind, g(&stats.hard), g(&stats.seek_failed), ks.plan),
+                            "Err carrying the I/O error",
+                        ));
+                        return;
+                    }
+                    obs.outcome = "ok".into();
+                    if f.len() != case.n {
+                        obs.violation = Some(Violation::new("wrong_len", format!("{ctx}:{}:len", ks.kind), format!("len() = {}", f.len()), format!("{}", case.n)));
+                        return;
+                    }
+                    for i in 0..case.n as u64 {
+                        let k = str_key(case, i);
+                        obs.checks += 1;
+                        if f.get(k.as_str()) as u64 != value_of(case, i) {
+                            obs.outcome = "wrong".into();
+                            obs.violation = Some(Violation::new("wrong_value", format!("{ctx}:{}:get", ks.kind), format!("key #{i} -> {}", f.get(k.as_str()) as u64), format!("{}", value_of(case, i))));
+                            return;
+                        }
+                    }
+                }
+                Err(e) => {
+                    if fired {
+                        obs.outcome = "err_injected".into();
+                    } else if disk_hard && err_is_simfs(&e) {
+                        obs.outcome = "err_disk".into();
+                    } else {
+                        obs.outcome = "err_unexpected".into();
+                        obs.violation = Some(Violation::new("unexpected_error", format!("{ctx}:{}:Err:no_fault", ks.kind), format!("{e:#}"), "Ok(function)"));
+                    }
+                }
+            }
+        }
+    };
+}
+str_lender_combo!(f3_lender, func, usize, bfv, s2, FuseLge3NoShards);
+str_lender_combo!(f5_lender, func, u16, boxed, s2, FuseLge3Shards);
+
 func_combo!(f0, usize, usize, bfv, s2, FuseLge3Shards);
 func_combo!(f1, usize, usize, boxed, s2, FuseLge3Shards);
 func_combo!(f2, u64, u64, bfv, s1, FuseLge3NoShards);
@@ -584,9 +697,15 @@ fn dispatch(case: &BuilderCase, obs: &mut BuildObs) {
         "f/usize/bfv-usize/s2/shards" => f0(case, obs),
         "f/usize/box-usize/s2/shards" => f1(case, obs),
         "f/u64/bfv-u64/s1/noshards" => f2(case, obs),
-        "f/str/bfv-usize/s2/noshards" => f3(case, obs),
+        "f/str/bfv-usize/s2/noshards" => match &case.key_source {
+            Some(ks) => f3_lender(case, ks, obs),
+            None => f3(case, obs),
+        },
         "f/usize/box-u8/s1/noshards" => f4(case, obs),
-        "f/str/box-u16/s2/shards" => f5(case, obs),
+        "f/str/box-u16/s2/shards" => match &case.key_source {
+            Some(ks) => f5_lender(case, ks, obs),
+            None => f5(case, obs),
+        },
         "f/u64/bfv-u32/s2/fullsigs" => f6(case, obs),
         "f/usize/box-u32/s2/fullsigs" => f7(case, obs),
         "f/usize/bfv-usize/s2/mwhc-shards" => f8(case, obs),
@@ -686,6 +805,7 @@ fn base_case(rng: &mut Rng, mode: &str, n: usize, iters: usize) -> BuilderCase {
         disk: None,
         sched: draw_sched(rng, iters),
         probes: 0,
+        key_source: None,
     }
 }
 
@@ -703,6 +823,32 @@ fn legal_disk(rng: &mut Rng) -> Option<DiskCfg> {
         })
     } else {
         None
+    }
+}
+
+fn legal_key_source(rng: &mut Rng) -> KeySrc {
+    KeySrc {
+        kind: rng.pick(&["line", "line", "gzip", "zstd"]).to_string(),
+        bufcap: *rng.pick(&[1usize, 3, 7, 64, 8192]),
+        plan: crate::worlds::lenders::IoPlan {
+            max_read: *rng.pick(&[1usize, 2, 7, 64, 1000, 1 << 20]),
+            eintr_every: if rng.chance(1, 3) { rng.range(2, 9) } else { 0 },
+            eintr_burst: rng.range(1, 3),
+            fail_at_byte: None,
+            fail_seek: None,
+            fail_kind: 0,
+            truncate_at: None,
+        },
+    }
+}
+
+fn is_lender_combo(combo: &str) -> bool {
+    combo == "f/str/bfv-usize/s2/noshards" || combo == "f/str/box-u16/s2/shards"
+}
+
+impl KeySrc {
+    fn has_hard(&self) -> bool {
+        self.plan.fail_at_byte.is_some() || self.plan.fail_seek.is_some() || self.plan.truncate_at.is_some()
     }
 }
 
@@ -787,6 +933,11 @@ pub fn gen_c07(tier: Tier, run: u64, rng: &mut Rng) -> BuilderCase {
     }
     if c.offline {
         c.disk = legal_disk(rng);
+    }
+    if is_lender_combo(&c.combo) && c.n <= 20_000 && rng.chance(1, 2) {
+        // keys through the crate's own line lenders over a simulated source (legal behaviours only)
+        c.key_source = Some(legal_key_source(rng));
+        c.dups.clear();
     }
     c
 }
@@ -924,6 +1075,15 @@ pub fn gen_c17(tier: Tier, run: u64, rng: &mut Rng) -> BuilderCase {
         c.disk = legal_disk(rng);
     }
     c.probes = 0;
+    if run % 5 == 4 && !multi && !big {
+        // the key source is one of the crate's own line lenders over a simulated byte source
+        c.mode = "func".into();
+        c.combo = rng.pick(&["f/str/bfv-usize/s2/noshards", "f/str/box-u16/s2/shards"]).to_string();
+        c.key_kind = rng.pick(&["plain", "prefix"]).to_string();
+        c.val_width = c.val_width.min(16);
+        c.dups.clear();
+        c.key_source = Some(legal_key_source(rng));
+    }
     c
 }
 
@@ -956,6 +1116,9 @@ fn run_scheduled(case: &BuilderCase, out: &mut Outcome) -> Vec<BuildObs> {
         out.checks += o.checks;
         out.fault_n("io.err.item", o.item_faults);
         out.fault_n("lender.rewind", o.rewind_faults);
+        if case.key_source.is_some() {
+            out.fault_n("keysource.real_lender", 1);
+        }
         if let Some(d) = &o.disk {
             out.fault_n("io.short.write", d.short_writes);
             out.fault_n("io.short.read", d.short_reads);
@@ -1073,6 +1236,31 @@ pub fn c17_placements(case: &BuilderCase, key_passes: u64, total_keys: u64, rewi
             with(LFault { source: "values".into(), kind: "rewind".into(), pass: 0, index: r });
         }
     }
+    if let Some(ks) = &case.key_source {
+        // faults of the byte source under the real lender replace the key-item placements
+        v.retain(|c| c.faults.iter().all(|f| f.source != "keys"));
+        let mut withk = |f: &dyn Fn(&mut crate::worlds::lenders::IoPlan)| {
+            let mut c = case.clone();
+            let mut k = ks.clone();
+            f(&mut k.plan);
+            c.key_source = Some(k);
+            v.push(c);
+        };
+        for j in 0..18u64 {
+            withk(&|p| {
+                p.fail_at_byte = Some(j.wrapping_mul(1_000_003).wrapping_add(j * j));
+                p.fail_kind = (j % 6) as u8;
+            });
+        }
+        if ks.kind != "line" {
+            for j in 0..6u64 {
+                withk(&|p| p.truncate_at = Some(1 + j.wrapping_mul(7_919)));
+            }
+        }
+        for j in 0..key_passes.min(4) {
+            withk(&|p| p.fail_seek = Some(j));
+        }
+    }
     if case.offline {
         let base = case.disk.clone().unwrap_or(DiskCfg {
             passthrough: false,
@@ -1134,7 +1322,7 @@ impl World for BuilderWorld {
     fn execute(prop: &str, case: &BuilderCase) -> Outcome {
         let mut out = Outcome::default();
         out.nontrivial = case.n > 0;
-        if prop == "C17" && case.faults.is_empty() && !case.disk.as_ref().map(|d| d.has_hard()).unwrap_or(false) {
+        if prop == "C17" && case.faults.is_empty() && !case.disk.as_ref().map(|d| d.has_hard()).unwrap_or(false) && !case.key_source.as_ref().map(|k| k.has_hard()).unwrap_or(false) {
             // template: fault-free reference run first, then every single-fault placement
             let obs = run_scheduled(case, &mut out);
             let Some(o) = obs.first() else {
@@ -1174,7 +1362,12 @@ impl World for BuilderWorld {
                     out.bucket(b);
                 }
                 if let Some(po) = pobs.first() {
-                    let fk = p.faults.first().map(|f| format!("{}.{}.p{}", f.source, f.kind, f.pass.min(4))).unwrap_or_else(|| "disk".into());
+                    let fk = p.faults.first().map(|f| format!("{}.{}.p{}", f.source, f.kind, f.pass.min(4))).unwrap_or_else(|| {
+                        match &p.key_source {
+                            Some(k) if k.has_hard() => format!("keysource.{}.{}", k.kind, if k.plan.truncate_at.is_some() { "truncated" } else if k.plan.fail_seek.is_some() { "seek" } else { "read_error" }),
+                            _ => "disk".into(),
+                        }
+                    });
                     out.bucket(format!("{}|{}|{}|{}", case.mode, if case.offline { "offline" } else { "online" }, fk, po.outcome));
                 }
                 if let Some(v) = sub.violation {
@@ -1264,6 +1457,20 @@ impl World for BuilderWorld {
             let mut c = case.clone();
             c.offline = false;
             push(c);
+        }
+        if let Some(k) = &case.key_source {
+            if !k.has_hard() {
+                let mut c = case.clone();
+                c.key_source = None;
+                push(c);
+            } else if k.plan.eintr_every != 0 || k.plan.max_read < (1 << 20) {
+                let mut c = case.clone();
+                let mut k2 = k.clone();
+                k2.plan.eintr_every = 0;
+                k2.plan.max_read = 1 << 20;
+                c.key_source = Some(k2);
+                push(c);
+            }
         }
         if case.low_mem.is_some() {
             let mut c = case.clone();
